@@ -61,6 +61,7 @@ type Exec struct {
 	closureID int64
 	global0   map[types.Object]*Term
 	notes     []string
+	retPos    []token.Pos
 	depth     int
 }
 
@@ -308,7 +309,27 @@ func (x *Exec) doReturn(st *State, vals []Val, pos token.Pos) {
 	}
 	env := &CEnv{x: x, st: st, old: x.entry, lookup: look, pkg: x.fi.Pkg.Types, oldAlloc: x.entry0Alloc(),
 		oldLook: func(name string) (Val, bool) { v, ok := x.entryVals[name]; return v, ok }}
-	rn := x.nextOrd("ret")
+	rn := x.retOrdinal(pos)
+	for i, ck := range x.fc.Checks {
+		if ck.Anchor != fmt.Sprintf("ret%d", rn) {
+			continue
+		}
+		cenv := x.invEnv(st, pos, nil)
+		inner := cenv.lookup
+		cenv.lookup = func(name string) (Val, bool) {
+			if v, ok := look(name); ok {
+				if _, isParam := x.paramObj(name); !isParam {
+					return v, true
+				}
+			}
+			return inner(name)
+		}
+		label := ck.Cl.Label
+		if label == "" {
+			label = fmt.Sprintf("c%d", i+1)
+		}
+		x.oblige(st, "check", fmt.Sprintf("%s@ret%d", label, rn), cenv.evalBool(ck.Cl.E), pos, ck.Cl.Src)
+	}
 	for i, en := range x.fc.Ensures {
 		label := en.Label
 		if label == "" {
@@ -319,6 +340,29 @@ func (x *Exec) doReturn(st *State, vals []Val, pos token.Pos) {
 	if x.fc.HasAssigns {
 		x.frameObligation(st, fmt.Sprintf("ret%d", rn), pos)
 	}
+}
+
+// retOrdinal: ordinal of the return statement at pos in source order
+// (the implicit return at the closing brace is the last one).
+func (x *Exec) retOrdinal(pos token.Pos) int {
+	if x.retPos == nil {
+		ast.Inspect(x.fi.Decl.Body, func(n ast.Node) bool {
+			switch r := n.(type) {
+			case *ast.FuncLit:
+				return false
+			case *ast.ReturnStmt:
+				x.retPos = append(x.retPos, r.Pos())
+			}
+			return true
+		})
+		x.retPos = append(x.retPos, x.fi.Decl.Body.Rbrace)
+	}
+	for i, p := range x.retPos {
+		if p == pos {
+			return i + 1
+		}
+	}
+	return x.nextOrd("ret") + 1000
 }
 
 // frameObligation: every pre-existing location outside the assigns set is
